@@ -19,7 +19,7 @@ CLAIMED = {
             "Trusted: the logging checker wrapper, the on-segment metric test with the tolerances of DESIGN.md section 4. Resolution fractions > 0 only.",
             "5/C03", "oxv"),
     "C04": ("proptest-generated bounded spaces (boxes, SO2 intervals of any span, SO3 cones, compounds) vs. independent reference membership",
-            "Every state of every returned path is tested against a reference bounds membership that does not use satisfies_bounds; the statement's precondition (start and goal samples in bounds) is checked per case. One known finding (non-convex bounded regions) is excluded by component-wise signature; convex regions must pass.",
+            "Every state of every returned path is tested against a reference bounds membership that does not use satisfies_bounds; the statement's precondition (start and goal samples in bounds) is checked per case. A third of the cases are call histories, most of them with a second problem over its own, tighter space object installed by setup(); samples and path states are judged against the space of the problem in effect. One known finding (non-convex bounded regions) is excluded by component-wise signature; convex regions must pass.",
             "Trusted: reference membership in harness/src/flat.rs, tolerance 1e-9 (SO3 1e-6).",
             "5/C04", "oxv"),
     "C05": ("proptest-generated planner cases over steps/radii from 1e-3 to 10 x extent vs. own and reference metric",
@@ -53,8 +53,8 @@ CLAIMED.update({
             "Timed solve / construct_roadmap calls with limits 0-50 ms over 4 planners x 6 kinds x feasible worlds and three infeasible families (goal sealed by a shell of thickness >= 1.1 L, goal region invalid, start sealed), plus degenerate resolutions: elapsed <= T + 1 s (confirmed by 3 repetitions before it counts), never Ok on an infeasible world, and every call returns within a 20 s watchdog.",
             "Wall-clock oracle with a generous allowance: late-by-less-than-1 s is invisible; 'never blocks' is 'returned within the watchdog on every generated case'.",
             "5/C06", "oxv"),
-    "C07": ("differential: two planner instances driven through the same generated call history in one process; metamorphic prefix relation across iteration budgets and a real timeout",
-            "Two instances built from the same case (seed, problem, history with repeated solve / re-setup / PRM construct / problem replacement, RNG-consuming goals) must agree after every step on results (bit for bit) and on tree / roadmap snapshots; and the node sequence after budget N, budget N+k and a real 0.2-3 ms timeout must be prefix-related.",
+    "C07": ("differential: two planner instances driven through the same generated call history in one process (Rust core; Python bindings via Hypothesis); metamorphic: a call cut by a real timeout after k iterations equals the call cut by budget k; prefix relation across budgets",
+            "Two instances built from the same case (seed, problem, history with repeated solve / re-setup / PRM construct / problem replacement, RNG-consuming goals) must agree after every step on results (bit for bit) and on tree / roadmap snapshots; the node sequence after budget N, budget N+k and a real 0.2-3 ms timeout must be prefix-related; a call cut by a real timeout after k started iterations and the same call cut by an iteration budget of k must leave bit-identical trees / roadmaps and return identical results, also on the following call; two fresh oxmpl_py planners per Hypothesis scenario must return identical results (every planner x problem-variant arm of the bindings).",
             "Trusted: snapshot accessors and iteration budget (feature verif). Hash-order dependence is covered because both instances live in one process with distinct RandomStates.",
             "5/C07", "oxv"),
     "C08": ("model-based testing: exhaustive call sequences up to length 4/6 per planner + fault enumeration (sampler failing at its k-th call, out-of-range parameters, empty start list) + random histories, against a reference model of the API state; all calls under catch_unwind",
@@ -66,11 +66,11 @@ CLAIMED.update({
             "Statistical: cannot see biases below about 1%; asymptotic tail formulas; cones of radius < 0.12 rad not sampled (rejection sampling cost).",
             "5/C14", "oxv"),
     "C15": ("bounded-exhaustive explicit-state exploration of the real planners under a scripted sampler (all sample sequences to depth 5/6 over a 6-7 state alphabet, de-duplicated by tree snapshot) + stepwise random runs + chunked/timed runs; tree invariant after every iteration",
-            "Every reachable tree (up to the stated depth over the stated alphabet and worlds; about 1.5e6 sequences in the quick tier) and every intermediate tree of 5000 (quick) random stepwise runs of 30-150 iterations is checked: indices, single root, acyclic, root identity, node validity, every new or changed edge motion-checked (oracles A and B) and within the extension limit, RRT* cost >= branch length, returned path = parent walk. A hang of path extraction is reported as a violation by the watchdog.",
+            "Every reachable tree (up to the stated depth over the stated alphabet and worlds; about 1.5e6 sequences in the quick tier) and every intermediate tree of 5000 (quick) random stepwise runs of 30-150 iterations is checked: indices, single root, acyclic, root identity, node validity, every new or changed edge motion-checked (oracles A and B) and within the extension limit, RRT* cost >= branch length, returned path = parent walk; plus re-setup histories on one planner object (second problem with a rejected start or a stricter checker), judged against the problem and world in effect. A hang of path extraction is reported as a violation by the watchdog.",
             "Exhaustive only over the stated alphabet / depth / worlds. Trusted: snapshot accessors, scripted sampler wrapper.",
             "5/C15", "oxv"),
     "C16": ("same exploration; per-iteration transition oracle from a reference model of one RRT / RRT-Connect / RRT* iteration; goal-bias frequency by Hoeffding bound on long seeded runs",
-            "For every explored transition: the new state equals the sample (within the step) or interpolate(nearest, sample, step/dist) bit for bit for some nearest node (ties allowed), it is added iff the iteration's first motion check passed (read from the ordered validity log), nothing else changes; RRT-Connect grows the smaller tree first and then extends the other toward the new node (a missing connect attempt is a violation). Goal bias 0 / 1 exactly, p in (0,1) within the Hoeffding bound at 1e-9.",
+            "For every explored transition: the new state equals the sample (within the step) or interpolate(nearest, sample, step/dist) bit for bit for some nearest node (ties allowed), it is added iff the iteration's first motion check passed (queries grouped per motion check by the scope hook) and that check ran along the segment from a nearest node to the new state, nothing else changes; an extension that is valid but was never attempted is a violation; RRT-Connect grows the smaller tree first and then extends the other toward the new node (a missing connect attempt is a violation). Goal bias 0 / 1 exactly, p in (0,1) within the Hoeffding bound at 1e-9.",
             "Trusted: reference model in harness/src/props/trees.rs; the planner's own metric (decided by C09) is used to determine 'nearest'.",
             "5/C16", "oxv"),
     "C17": ("same exploration restricted to RRT* + stepwise random runs: bit-exact cost bookkeeping, arg-min parent modulo rejected motions, rewiring exactly when strictly cheaper; differential RRT vs RRT* on the same seed",
